@@ -206,7 +206,11 @@ Definition e2e_expect (e : option herr) (o : robs) : bool :=
       if status_marshal_ok s then
         if (st_code s =? 0)%Z then match o with OOkNoData => true | _ => false end
         else match o with OStatus c m d => status_matches s c m d | _ => false end
-      else match o with OOther => true | OEOF => true | _ => false end    (* the stream is reset *)
+      else
+        (* the status cannot be marshalled (e.g. invalid UTF-8 in the message): the responder resets the stream, and
+           the reset may overtake the response header or surface under different error classes depending on timing;
+           outside the claim except that nothing may be delivered as data *)
+        match o with OData _ => false | _ => true end
   end.
 
 Definition agrees (c : cbody) : bool :=
